@@ -100,6 +100,35 @@ Section RmR16NoFlags.
     - exact W.
   Qed.
 
+  (* the moffs encoding (A0..A3: accumulator and an absolute address): the same helper call *)
+  Theorem mov_moffs16_ax_exact :
+    i_code i = C_Mov_moffs16_AX ->
+    match read_op i 0 16 s with
+    | Some _ =>
+        match isa_exec (SMov 16) i s with
+        | IDone s' u => instr_mov_moffs16_ax c i s = (Ok tt, s') /\ u = 0
+        | IFault FMem => exists e, instr_mov_moffs16_ax c i s = (Err e, s)
+        | IFault _ => False
+        end
+    | None => exists e, instr_mov_moffs16_ax c i s = (Err e, s)
+    end.
+  Proof.
+    intros Ec. unfold instr_mov_moffs16_ax. rewrite Ec.
+    rewrite (bind_ok _ _ _ _ _ (dbg_code_ok c s _ eq_refl)).
+    pose proof (calc_rm_r_16_shape (fun _ v_s => Ok v_s) FLAGS_UNAFFECTED 0) as SH.
+    destruct (read_op i 0 16 s) as [d|]; [|exact SH]. destruct SH as [Hd SH].
+    rewrite (SH _ eq_refl). rewrite (bind_ok _ _ _ _ _ (set_flags16_unaffected c _ s)).
+    change (Z.land FLAGS_UNAFFECTED NO_WRITEBACK =? 0) with true. cbv iota.
+    cbn [isa_exec]. unfold read_op. rewrite K1. rewrite rf_read_mod16 by exact H1. fold r1 sv.
+    assert (Hsv : 0 <= sv < 2 ^ 16) by (apply rf_read_range16; exact H1).
+    assert (RS : MovxP.rm16_shape i 0) by exact Hs0.
+    pose proof (dest_write16_spec c i s Hwf HI Hn RS (rflags s) sv Hsv) as W. cbv zeta in W.
+    assert (SS : set_rflags s (rflags s) = s) by (destruct s; reflexivity). rewrite SS in W.
+    destruct (write_op i 0 16 sv s) as [s2|]; cbn [opt_done].
+    - rewrite W. split; reflexivity.
+    - exact W.
+  Qed.
+
   Theorem xor_rm16_r16_refines :
     0 <= rflags s < 2 ^ 64 -> i_code i = C_Xor_rm16_r16 -> rmw16_refines i s XOR (instr_xor_rm16_r16 c i s).
   Proof.
